@@ -128,6 +128,20 @@ class Closure:
         self.node, self.env, self.fi = node, env, fi
 
 
+class Deque(list):
+    """collections.deque as a list with the deque methods"""
+
+
+class PyFn:
+    """a callable of the standard library built from interpreted pieces (attrgetter, partial, ...)"""
+
+    def __init__(self, name, fn):
+        self.name, self.fn = name, fn
+
+    def __repr__(self):
+        return f"<{self.name}>"
+
+
 class BoundFunc:
     def __init__(self, fi: FuncInfo, self_obj=None):
         self.fi, self.self_obj = fi, self_obj
@@ -135,6 +149,7 @@ class BoundFunc:
 
 SAFE_METHODS = {
     list: {"append", "extend", "pop", "insert", "index", "copy", "count", "reverse", "sort", "remove", "clear"},
+    Deque: {"append", "extend", "pop", "insert", "index", "copy", "count", "reverse", "remove", "clear"},
     dict: {"get", "items", "keys", "values", "pop", "setdefault", "update", "copy"},
     set: {"add", "update", "discard", "remove", "copy", "union", "intersection", "difference", "issubset"},
     str: {"startswith", "endswith", "strip", "lstrip", "rstrip", "lower", "upper", "casefold", "isspace", "split", "join", "replace",
@@ -306,15 +321,23 @@ class MiniInterp:
             env[st.name] = Closure(st, env, fi)
             return
         if isinstance(st, ast.With):
-            # contextlib.suppress(...) only
+            suppressed = []
             for it in st.items:
                 ce = it.context_expr
-                if not (isinstance(ce, ast.Call) and (attr_chain(ce.func) or "").endswith("suppress")):
-                    raise Unknown(f"with {unparse(ce)[:40]}")
+                if isinstance(ce, ast.Call) and (attr_chain(ce.func) or "").endswith("suppress"):
+                    suppressed += [(attr_chain(a) or "?").split(".")[-1] for a in ce.args]
+                    continue
+                # any other context manager: the value itself is bound (open files, locks, Live displays ...); __exit__
+                # is not modelled (no exception is swallowed by it)
+                v = self.ev(ce, env, fi)
+                if it.optional_vars is not None:
+                    self.assign(it.optional_vars, v, env, fi)
             try:
                 self.block(st.body, env, fi)
-            except PyRaise:
-                pass
+            except PyRaise as ex:
+                from .core import exc_is_caught
+                if not (suppressed and exc_is_caught(ex.name, suppressed)):
+                    raise
             return
         if isinstance(st, (ast.Import, ast.ImportFrom, ast.Global, ast.Nonlocal)):
             return
@@ -327,6 +350,18 @@ class MiniInterp:
             env[t.id] = v
         elif isinstance(t, (ast.Tuple, ast.List)):
             vals = list(self.iterate(v))
+            stars = [i for i, e in enumerate(t.elts) if isinstance(e, ast.Starred)]
+            if stars:
+                i = stars[0]
+                after = len(t.elts) - i - 1
+                if len(stars) > 1 or len(vals) < len(t.elts) - 1:
+                    raise PyRaise("ValueError", t)
+                for e, x in zip(t.elts[:i], vals[:i]):
+                    self.assign(e, x, env, fi)
+                self.assign(t.elts[i].value, list(vals[i:len(vals) - after]), env, fi)
+                for e, x in zip(t.elts[i + 1:], vals[len(vals) - after:]):
+                    self.assign(e, x, env, fi)
+                return
             if len(vals) != len(t.elts):
                 raise PyRaise("ValueError", t)
             for e, x in zip(t.elts, vals):
@@ -717,225 +752,6 @@ class MiniInterp:
                                                   or isinstance(a, ISet) or isinstance(b, ISet)):
             r = self.equal(a, b)
             return r if isinstance(op, ast.Eq) else not r
-        if self.hook and isinstance(op, ast.Div) and not all(isinstance(x, (int, float, Sym, Lin)) for x in (a, b)):
-            r = self.hook(self, "binop_div", a, b, None, node, None)
-            if r is not NotImplemented:
-                return r
-        if isinstance(a, (Sym, Lin)) or isinstance(b, (Sym, Lin)):
-            if isinstance(op, (ast.Add, ast.Sub)):
-                return Lin.of(a).add(Lin.of(b), 1 if isinstance(op, ast.Add) else -1).simplify()
-            if isinstance(op, ast.Mult):
-                la, lb = Lin.of(a), Lin.of(b)
-                if not la.terms:
-                    return lb.scale(la.const).simplify()
-                if not lb.terms:
-                    return la.scale(lb.const).simplify()
-            return self.opaque(type(op).__name__, a, b)
-        try:
-            if isinstance(op, ast.Add):
-                return a + b
-            if isinstance(op, ast.Sub):
-                return a - b
-            if isinstance(op, ast.Mult):
-                return a * b
-            if isinstance(op, ast.FloorDiv):
-                return a // b
-            if isinstance(op, ast.Mod):
-                return a % b
-            if isinstance(op, ast.Div):
-                return a / b
-            if isinstance(op, ast.BitOr):
-                return a | b
-            if isinstance(op, ast.BitAnd):
-                return a & b
-        except ZeroDivisionError:
-            raise PyRaise("ZeroDivisionError", node)
-        except TypeError:
-            raise Unknown("binary operator on these operands")
-        raise Unknown(f"operator {type(op).__name__}")
-
-    def opaque(self, op, a, b=None, *more):
-        """uninterpreted term for arithmetic outside the linear fragment; same structure -> same name"""
-        def nm(x):
-            return x.name if isinstance(x, Sym) else repr(x)
-        args = [a] + ([b] if b is not None else []) + list(more)
-        name = f"{op}({', '.join(nm(x) for x in args)})"
-        t = Sym(name)
-        t.fields.update(op=op, a=a, b=b, args=args)
-        self.terms[name] = t
-        return t
-
-    def ev(self, n, env, fi):
-        self.tick()
-        if n is None:
-            return None
-        if isinstance(n, ast.Constant):
-            return n.value
-        if isinstance(n, ast.Name):
-            if n.id in env:
-                return env[n.id]
-            return self.global_name(n.id, fi)
-        if isinstance(n, ast.Tuple):
-            return tuple(self.ev(e, env, fi) for e in n.elts)
-        if isinstance(n, ast.List):
-            return [self.ev(e, env, fi) for e in n.elts]
-        if isinstance(n, ast.Set):
-            return self.mkset([self.ev(e, env, fi) for e in n.elts])
-        if isinstance(n, ast.Dict):
-            return {self.key(self.ev(k, env, fi)): self.ev(v, env, fi) for k, v in zip(n.keys, n.values)}
-        if isinstance(n, ast.BoolOp):
-            v = None
-            for x in n.values:
-                v = self.ev(x, env, fi)
-                t = self.truth(v)
-                if isinstance(n.op, ast.And) and not t:
-                    return v
-                if isinstance(n.op, ast.Or) and t:
-                    return v
-            return v
-        if isinstance(n, ast.UnaryOp):
-            v = self.ev(n.operand, env, fi)
-            if isinstance(n.op, ast.Not):
-                return not self.truth(v)
-            if isinstance(n.op, ast.USub):
-                if isinstance(v, (Sym, Lin)):
-                    return Lin.of(v).scale(-1).simplify()
-                return -v
-            raise Unknown("unary operator")
-        if isinstance(n, ast.BinOp):
-            return self.binop(n.op, self.ev(n.left, env, fi), self.ev(n.right, env, fi), n)
-        if isinstance(n, ast.IfExp):
-            return self.ev(n.body if self.truth(self.ev(n.test, env, fi)) else n.orelse, env, fi)
-        if isinstance(n, ast.Compare):
-            left = self.ev(n.left, env, fi)
-            for op, c in zip(n.ops, n.comparators):
-                right = self.ev(c, env, fi)
-                if not self.compare(op, left, right):
-                    return False
-                left = right
-            return True
-        if isinstance(n, ast.Subscript):
-            obj = self.ev(n.value, env, fi)
-            if isinstance(n.slice, ast.Slice):
-                lo = self.ev(n.slice.lower, env, fi) if n.slice.lower is not None else None
-                hi = self.ev(n.slice.upper, env, fi) if n.slice.upper is not None else None
-                st = self.ev(n.slice.step, env, fi) if n.slice.step is not None else None
-                if isinstance(obj, (list, tuple, str)):
-                    return obj[lo:hi:st]
-                raise Unknown("slice of this value")
-            k = self.ev(n.slice, env, fi)
-            if isinstance(obj, (list, tuple, str, dict, range)):
-                try:
-                    return obj[self.key(k) if isinstance(obj, dict) else k]
-                except (KeyError, IndexError, TypeError) as e:
-                    raise PyRaise(EXC_OF.get(type(e), "Exception"), n)
-            if isinstance(obj, Sym) and getattr(obj, "tuple_order", None) and isinstance(k, int):
-                return obj.fields[obj.tuple_order[k]]
-            if isinstance(obj, Sym) and obj.open:
-                kk = repr(k)
-                if kk not in obj.items:
-                    obj.items[kk] = Sym(f"{obj.name}[{k.name if isinstance(k, Sym) else kk}]", _open=True)
-                return obj.items[kk]
-            raise Unknown(f"subscript of {type(obj).__name__}")
-        if isinstance(n, ast.Attribute):
-            obj = self.ev(n.value, env, fi)
-            return self.getattr(obj, n.attr, fi, n)
-        if isinstance(n, ast.Call):
-            return self.ev_call(n, env, fi)
-        if isinstance(n, (ast.ListComp, ast.SetComp, ast.GeneratorExp, ast.DictComp)):
-            return self.comp(n, env, fi)
-        if isinstance(n, ast.Lambda):
-            return Closure(n, env, fi)
-        if isinstance(n, ast.JoinedStr):
-            parts = []
-            for v in n.values:
-                if isinstance(v, ast.Constant):
-                    parts.append(str(v.value))
-                    continue
-                x = self.ev(v.value, env, fi)
-                spec = ""
-                if v.format_spec is not None:
-                    sp = self.ev(v.format_spec, env, fi)
-                    if not isinstance(sp, str):
-                        raise Unknown("format spec")
-                    spec = sp
-                def plain(v):
-                    return isinstance(v, (int, float, str, bool, type(None))) or (isinstance(v, (list, tuple)) and all(plain(y) for y in v)) or \
-                        (isinstance(v, dict) and all(plain(k) and plain(y) for k, y in v.items()))
-                if not plain(x) and self.hook:
-                    r = self.hook(self, "call", ("builtin", "str"), [x], {}, n, fi)
-                    if isinstance(r, str):
-                        x = r
-                if plain(x):
-                    try:
-                        if v.conversion == ord("r"):
-                            x = repr(x)
-                        elif v.conversion == ord("s"):
-                            x = str(x)
-                        parts.append(format(x, spec))
-                    except (ValueError, TypeError):
-                        raise PyRaise("ValueError", n)
-                else:
-                    parts.append(x)
-            if all(isinstance(x, str) for x in parts):
-                return "".join(parts)
-            return Sym("fstring", parts=parts)
-        if isinstance(n, ast.NamedExpr):
-            v = self.ev(n.value, env, fi)
-            env[n.target.id] = v
-            return v
-        if isinstance(n, ast.Yield):
-            if "__yield__" not in env:
-                raise Unknown("yield outside an interpreted generator")
-            env["__yield__"].append(self.ev(n.value, env, fi) if n.value is not None else None)
-            return None
-        if isinstance(n, ast.YieldFrom):
-            if "__yield__" not in env:
-                raise Unknown("yield outside an interpreted generator")
-            env["__yield__"].extend(self.iterate(self.ev(n.value, env, fi)))
-            return None
-        if isinstance(n, ast.Starred):
-            raise Unknown("starred expression")
-        raise Unknown(f"expression {type(n).__name__}")
-
-    def comp(self, n, env, fi):
-        out = []
-        env2 = dict(env)
-
-        def rec(i):
-            if i == len(n.generators):
-                if isinstance(n, ast.DictComp):
-                    out.append((self.key(self.ev(n.key, env2, fi)), self.ev(n.value, env2, fi)))
-                else:
-                    out.append(self.ev(n.elt, env2, fi))
-                return
-            g = n.generators[i]
-            for x in self.iterate(self.ev(g.iter, env2, fi)):
-                self.tick()
-                self.assign(g.target, x, env2, fi)
-                if all(self.truth(self.ev(c, env2, fi)) for c in g.ifs):
-                    rec(i + 1)
-        rec(0)
-        if isinstance(n, ast.ListComp):
-            return out
-        if isinstance(n, ast.SetComp):
-            return self.mkset(out)
-        if isinstance(n, ast.DictComp):
-            return dict(out)
-        return _Iter(out)
-
-    def compare(self, op, a, b):
-        if isinstance(op, ast.Is):
-            return a is b or (a is None and b is None)
-        if isinstance(op, ast.IsNot):
-            return not (a is b or (a is None and b is None))
-        if isinstance(op, (ast.In, ast.NotIn)):
-            r = self.contains(b, a)
-            return r if isinstance(op, ast.In) else not r
-        if isinstance(op, (ast.Eq, ast.NotEq)) and ((isinstance(a, Sym) and a.cls is not None) or (isinstance(b, Sym) and b.cls is not None)
-                                                  or isinstance(a, ISet) or isinstance(b, ISet)):
-            r = self.equal(a, b)
-            return r if isinstance(op, ast.Eq) else not r
         if isinstance(a, (Sym, Lin)) or isinstance(b, (Sym, Lin)):
             if self.hook:
                 r = self.hook(self, "compare", op, (a, b), None, None, None)
@@ -967,6 +783,8 @@ class MiniInterp:
                 if m is not None:
                     if m.is_property():
                         return self.call(self.prj.func(m.qual), [], {}, obj)
+                    if m.is_classmethod():
+                        return BoundFunc(m, T("class", obj.cls))
                     return BoundFunc(m, obj)
                 for c in obj.cls.mro():
                     if (c.qual, attr) in self.class_state:
@@ -1000,7 +818,7 @@ class MiniInterp:
                         return val
             m = ci.find_method(attr)
             if m is not None:
-                return BoundFunc(m, None)
+                return BoundFunc(m, obj if m.is_classmethod() else None)
             for c in ci.mro():
                 if (c.qual, attr) in self.class_state:
                     return self.class_state[(c.qual, attr)]
@@ -1022,6 +840,18 @@ class MiniInterp:
                 if m is not None:
                     return BoundFunc(m, me)
             return T("method", Sym("ext:super", _open=True), attr)
+        if isinstance(obj, Deque) and attr in ("appendleft", "popleft", "extendleft"):
+            def dq(a, k, obj=obj, attr=attr):
+                if attr == "appendleft":
+                    obj.insert(0, a[0])
+                elif attr == "extendleft":
+                    for x in self.iterate(a[0]):
+                        obj.insert(0, x)
+                else:
+                    if not obj:
+                        raise PyRaise("IndexError", node)
+                    return obj.pop(0)
+            return PyFn("deque." + attr, dq)
         if isinstance(obj, ISet):
             if attr in ("add", "update", "discard", "remove", "copy", "union", "intersection", "difference", "issubset", "isdisjoint",
                         "pop", "clear", "issuperset"):
@@ -1091,13 +921,22 @@ class MiniInterp:
             r = self.hook(self, "call", f, args, kwargs, n, fi)
             if r is not NotImplemented:
                 return r
+        if isinstance(f, tuple):
+            return self.dispatch_marker(f, args, kwargs, n, env, fi)
         r = self.call_callable(f, args, kwargs)
         if r is not NotImplemented:
             return r
+        raise Unknown(f"call of {type(f).__name__}")
+
+    def dispatch_marker(self, f, args, kwargs, n, env=None, fi=None):
+        env = env if env is not None else {}
         if isinstance(f, tuple) and f and f[0] == "iset":
             return self.iset_method(f[1], f[2], args, n)
         if isinstance(f, tuple) and f and f[0] == "native":
             _, obj, attr = f
+            if isinstance(obj, list) and attr == "sort":
+                obj[:] = self.builtin("sorted", [list(obj)], dict(kwargs), n)
+                return None
             if isinstance(obj, (list, tuple)) and attr in ("index", "count", "remove") and args and any(isinstance(x, Sym) for x in list(obj) + args[:1]):
                 hits = [i for i, x in enumerate(obj) if self.equal(x, args[0])]
                 if attr == "count":
@@ -1118,10 +957,13 @@ class MiniInterp:
                 if attr in ("items", "keys", "values"):
                     return list(r)
                 return r
-            except (KeyError, IndexError, ValueError, TypeError) as e:
+            except TypeError as e:
+                # most often the model (a symbolic value handed to a native method), not the program
+                raise Unknown(f"native {type(obj).__name__}.{attr}: {e}")
+            except (KeyError, IndexError, ValueError) as e:
                 raise PyRaise(EXC_OF.get(type(e), "Exception"), n)
         if isinstance(f, tuple) and f and f[0] == "builtin":
-            if f[1] == "super" and not args and fi.cls is not None and "self" in env:
+            if f[1] == "super" and not args and fi is not None and fi.cls is not None and "self" in env:
                 return T("super", env["self"], fi.cls)
             return self.builtin(f[1], args, kwargs, n)
         if isinstance(f, tuple) and f and f[0] == "external":
@@ -1131,6 +973,10 @@ class MiniInterp:
             if base == "deepcopy" and len(args) == 1:
                 return self.deepcopy(args[0])
             mod = f[1].replace(":", ".").split(".")[0]
+            full = f[1].replace(":", ".")
+            r = self.stdlib(full, base, args, kwargs, n)
+            if r is not NotImplemented:
+                return r
             if mod == "json" and base in ("dumps", "loads"):
                 import json as _json
 
@@ -1160,7 +1006,127 @@ class MiniInterp:
             if len(cands) == 1 and f[1].cls is None:
                 return self.call(self.prj.func(cands[0].qual), args, kwargs, f[1])
             raise Unknown(f"method {f[2]} of {f[1]}")
-        raise Unknown(f"call of {type(f).__name__}")
+        raise Unknown(f"call of marker {f[0]}")
+
+    def stdlib(self, full, base, args, kwargs, node):
+        """operator / functools / itertools / collections helpers, interpreted"""
+        mod = full.split(".")[0]
+        if mod == "operator":
+            if base == "attrgetter" and args and all(isinstance(a, str) for a in args):
+                def get(obj, path):
+                    for part in path.split("."):
+                        obj = self.getattr(obj, part, None, node)
+                    return obj
+                names = list(args)
+                return PyFn("attrgetter", lambda a, k: get(a[0], names[0]) if len(names) == 1 else tuple(get(a[0], x) for x in names))
+            if base == "itemgetter" and args:
+                keys = list(args)
+
+                def item(obj, key):
+                    try:
+                        return obj[key]
+                    except (KeyError, IndexError) as e:
+                        raise PyRaise(type(e).__name__, node)
+                    except TypeError:
+                        raise Unknown("itemgetter on this value")
+                return PyFn("itemgetter", lambda a, k: item(a[0], keys[0]) if len(keys) == 1 else tuple(item(a[0], x) for x in keys))
+            if base == "methodcaller" and args and isinstance(args[0], str):
+                mname, margs, mkw = args[0], list(args[1:]), dict(kwargs)
+
+                def callm(a, k):
+                    fm = self.getattr(a[0], mname, None, node)
+                    if isinstance(fm, Sym) and fm.parent is not None:
+                        fm = T("method", fm.parent[0], fm.parent[1])
+                    r = NotImplemented
+                    if self.hook:
+                        r = self.hook(self, "call", fm, margs, mkw, node, None)
+                    return r if r is not NotImplemented else self.apply2(fm, margs, mkw)
+                return PyFn("methodcaller", callm)
+            ops = {"add": ast.Add, "sub": ast.Sub, "mul": ast.Mult, "floordiv": ast.FloorDiv, "mod": ast.Mod, "truediv": ast.Div}
+            if base in ops and len(args) == 2:
+                return self.binop(ops[base](), args[0], args[1], node)
+            cmps = {"lt": ast.Lt, "le": ast.LtE, "gt": ast.Gt, "ge": ast.GtE, "eq": ast.Eq, "ne": ast.NotEq, "contains": None}
+            if base in cmps and len(args) == 2:
+                if base == "contains":
+                    return self.contains(args[0], args[1])
+                return self.compare(cmps[base](), args[0], args[1])
+            if base in ("not_", "truth") and len(args) == 1:
+                return (not self.truth(args[0])) if base == "not_" else self.truth(args[0])
+            if base == "neg" and len(args) == 1:
+                return self.binop(ast.Sub(), 0, args[0], node)
+        if mod == "functools":
+            if base == "partial" and args:
+                f0, a0, k0 = args[0], list(args[1:]), dict(kwargs)
+                return PyFn("partial", lambda a, k: self.apply2(f0, a0 + list(a), {**k0, **k}))
+            if base == "reduce" and len(args) >= 2:
+                xs = self.iterate(args[1])
+                if len(args) > 2:
+                    acc = args[2]
+                elif xs:
+                    acc, xs = xs[0], xs[1:]
+                else:
+                    raise PyRaise("TypeError", node)
+                for x in xs:
+                    self.tick()
+                    acc = self.apply2(args[0], [acc, x], {})
+                return acc
+        if mod == "itertools":
+            if base == "chain":
+                return _Iter([x for a in args for x in self.iterate(a)])
+            if full.endswith("chain.from_iterable") or base == "from_iterable":
+                return _Iter([x for a in self.iterate(args[0]) for x in self.iterate(a)])
+            if base in ("takewhile", "dropwhile") and len(args) == 2:
+                xs = self.iterate(args[1])
+                i = 0
+                while i < len(xs) and self.truth(self.apply2(args[0], [xs[i]], {})):
+                    i += 1
+                return _Iter(xs[:i] if base == "takewhile" else xs[i:])
+            if base == "accumulate" and args:
+                xs = self.iterate(args[0])
+                fn = args[1] if len(args) > 1 else kwargs.get("func")
+                out = []
+                init = kwargs.get("initial")
+                if init is not None:
+                    out.append(init)
+                for x in xs:
+                    if not out:
+                        out.append(x)
+                    else:
+                        out.append(self.apply2(fn, [out[-1], x], {}) if fn is not None else self.binop(ast.Add(), out[-1], x, node))
+                return _Iter(out)
+            if base == "starmap" and len(args) == 2:
+                return _Iter([self.apply2(args[0], list(self.iterate(t)), {}) for t in self.iterate(args[1])])
+            if base == "islice" and len(args) >= 2:
+                xs = self.iterate(args[0])
+                sl = slice(*[a for a in args[1:]]) if len(args) > 2 else slice(args[1])
+                return _Iter(xs[sl])
+            if base == "repeat" and len(args) == 2:
+                return _Iter([args[0]] * args[1])
+            if base == "zip_longest":
+                xs = [self.iterate(a) for a in args]
+                n = max((len(x) for x in xs), default=0)
+                fill = kwargs.get("fillvalue")
+                return _Iter([tuple(x[i] if i < len(x) else fill for x in xs) for i in range(n)])
+            if base == "groupby":
+                raise Unknown("itertools.groupby")
+            if base == "pairwise" and len(args) == 1:
+                xs = self.iterate(args[0])
+                return _Iter(list(zip(xs, xs[1:])))
+        if mod == "collections" and base == "deque":
+            return Deque(self.iterate(args[0]) if args else [])
+        if mod == "collections" and base == "defaultdict":
+            raise Unknown("collections.defaultdict")
+        return NotImplemented
+
+    def apply2(self, f, args, kwargs):
+        r = NotImplemented
+        if self.hook:
+            r = self.hook(self, "call", f, list(args), dict(kwargs), None, None)
+        if r is NotImplemented:
+            r = self.call_callable(f, list(args), dict(kwargs))
+        if r is NotImplemented:
+            raise Unknown("callable")
+        return r
 
     def iset_method(self, st: ISet, name, args, node):
         if name == "add":
@@ -1310,6 +1276,18 @@ class MiniInterp:
                 a2 = [self.iterate(a) if isinstance(a, _Iter) else a for a in args]
                 if name in ("any", "all"):
                     return {"any": any, "all": all}[name](self.truth(x) for x in self.iterate(a2[0]))
+                if name in ("min", "max") and "key" in kwargs and kwargs["key"] is not None:
+                    xs = self.iterate(a2[0]) if len(a2) == 1 else list(a2)
+                    if not xs:
+                        if "default" in kwargs:
+                            return kwargs["default"]
+                        raise PyRaise("ValueError", node)
+                    keyed = [(self.apply(kwargs["key"], [x]), x) for x in xs]
+                    best = keyed[0]
+                    for kx in keyed[1:]:
+                        if (name == "min" and self.compare(ast.Lt(), kx[0], best[0])) or (name == "max" and self.compare(ast.Gt(), kx[0], best[0])):
+                            best = kx
+                    return best[1]
                 if name == "sum" and a2 and isinstance(a2[0], (list, tuple)) and any(isinstance(x, (Sym, Lin)) for x in list(a2[0]) + a2[1:]):
                     acc = Lin.of(a2[1] if len(a2) > 1 else kwargs.get("start", 0))
                     for x in a2[0]:
@@ -1377,6 +1355,12 @@ class MiniInterp:
         raise Unknown(f"builtin {name}")
 
     def call_callable(self, f, args, kwargs):
+        if isinstance(f, PyFn):
+            return f.fn(args, kwargs)
+        if isinstance(f, T) and f[0] in ("builtin", "external", "native", "iset", "class", "method"):
+            # a marker used as a first-class callable (sorted(key=len), map(str, ...), filter(Token.is_name, ...))
+            fake = ast.Call(func=ast.Name(id="_", ctx=ast.Load()), args=[], keywords=[])
+            return self.dispatch_marker(f, list(args), dict(kwargs), fake)
         if isinstance(f, BoundFunc):
             return self.call(self.prj.func(f.fi.qual), args, kwargs, f.self_obj)
         if isinstance(f, Closure):
@@ -1422,10 +1406,7 @@ class MiniInterp:
         return NotImplemented
 
     def apply(self, f, args):
-        r = self.call_callable(f, args, {})
-        if r is NotImplemented:
-            raise Unknown("callable")
-        return r
+        return self.apply2(f, args, {})
 
 
 class LazyIter:
